@@ -13,6 +13,8 @@ from tiv.constfold import Folder
 from tiv.sem import trace, expand, same
 
 RULES = {
+    "MEMO": "memo safety (shared, rules/common.py): a memoised function in this property's files (or called from them) is a function of its "
+            "arguments only (no terminal/ambient/receiver state outside the key) and no caller mutates its result in place",
     "R1": "chunk protocol (Transmission.get_chunks): the default chunk size is an int literal <= 4096 and a multiple of 4 and no call site "
           "overrides it; the generator uses one-chunk look-ahead: the first yield carries the control data and m=bool(<look-ahead>), every yield inside "
           "`while <look-ahead>` carries the literal m=1, the yield after the loop carries m=0 and is guarded by the pending chunk; every yield is a "
@@ -215,7 +217,7 @@ def run(ck, m):
         go(term)
         return out
     for ret, facts, term in emit.summaries(ir, ienv):
-        cs = emit.cases(term, facts, limit=7)
+        cs = emit.cases(term, facts, limit=9)
         ck.expect(cs is not None, "iterm2 renderer: too many free conditions in an output shape")
         for f, t in cs or []:
             lines = any("LINES" in k and v for k, v in f.items())
@@ -335,6 +337,12 @@ def run(ck, m):
         for c in body_walk(fn):
             if isinstance(c, ast.Call) and call_name(c) == "ControlData":
                 ck.ob("R6", enclosing_stmt(c), not any(k.arg in ("t", "o", "a", "C") for k in c.keywords), f"{q}: ControlData is built with transmission-medium/compression/cursor keys overridden", stmt=f"{q}: ControlData keeps t/o/a/C defaults")
+
+    from rules.c02 import rule_pixel_pipeline
+    rule_pixel_pipeline(ck, m, "R2")
+
+    from rules.common import rule_memo_safety
+    rule_memo_safety(ck, m, "MEMO", "C03")
 
 
 def rule_chunk_protocol(ck, m, rid):
